@@ -6,3 +6,35 @@ contract("codemodder.code_directory.file_line_patterns", props=["C13"],
                    "all(iff(n in result, any(len(q.split(':')) == 2 and int(q.split(':')[1]) == n"
                    " and fnmatch.fnmatch(str(file_path), q.split(':')[0]) for q in patterns)) for n in ANY('int'))"),
                   ("no patterns => no lines", "implies(len(patterns) == 0, len(result) == 0)")])
+
+import fnmatch as _fn
+external("fnmatch.filter", params={"names": "list[str]", "pat": "str"}, returns="list[str]", pure=True,
+         ensures=["all(iff(x in result, x in names and fnmatch.fnmatch(x, pat)) for x in ANY('str'))"],
+         note="fnmatch.filter(names, pat) == [n for n in names if fnmatch(n, pat)] (POSIX: normcase is the identity)")
+
+_NAMED = "any(str(n) == x for n in names)"
+contract("codemodder.code_directory.filter_files", props=["C05"], bounded=True,
+         params={"names": "list[Path]", "patterns": "list[str] | None", "exclude": "bool"}, returns="list[str]",
+         ensures=[("only names of the given files are returned", f"all(implies(x in result, {_NAMED}) for x in ANY('str'))"),
+                  ("include mode: a file is selected exactly when it matches the path part of some pattern (a ':line' suffix is ignored)",
+                   f"implies(not exclude, all(iff(x in result, {_NAMED} and patterns is not None and any(fnmatch.fnmatch(x, q.split(':')[0]) for q in patterns)) for x in ANY('str')))"),
+                  ("exclude mode: a pattern carrying a ':line' suffix never excludes a whole file",
+                   f"implies(exclude, all(iff(x in result, {_NAMED} and patterns is not None and any(':' not in q and fnmatch.fnmatch(x, q) for q in patterns)) for x in ANY('str')))")])
+
+_INC = "(include_paths if include_paths is not None else DEFAULT_INCLUDED_PATHS)"
+_EXC = "(exclude_paths if exclude_paths is not None else DEFAULT_EXCLUDED_PATHS)"
+_REL = "[str(p.relative_to(parent_path)) for p in input_paths]"
+_SEL = ("any(fnmatch.fnmatch(x, q.split(':')[0]) for q in " + _INC + ") and not any(':' not in q and fnmatch.fnmatch(x, q) for q in " + _EXC + ")")
+contract("codemodder.code_directory.match_files", props=["C05", "C11"], bounded=True,
+         params={"parent_path": "Path", "input_paths": "list[Path]", "exclude_paths": "list[str] | None", "include_paths": "list[str] | None"},
+         returns="list[Path]",
+         requires=["all(p.is_relative_to(parent_path) for p in input_paths)"],
+         ensures=[("exactly the files matching an include pattern and no file-level exclude pattern (defaults when None), under the parent",
+                   "set(result) == {parent_path.joinpath(x) for x in " + _REL + " if " + _SEL + "}"),
+                  ("sorted and duplicate-free: the order is a function of the selected set, not of the enumeration order",
+                   "result == sorted(set(result)) and result == match_files(parent_path, list(reversed(input_paths)), exclude_paths, include_paths)")])
+
+_CX = "CodemodExecutionContext"
+contract("codemodder.code_directory.match_files", props=["C05"], functional=True, reads=[], trusted=True,
+         params={"parent_path": "Path", "input_paths": "list[Path]", "exclude_paths": "list[str] | None", "include_paths": "list[str] | None"},
+         returns="list[Path]") if False else None
